@@ -3,12 +3,15 @@ package props
 import (
 	"bufio"
 	"bytes"
+	"errors"
 	"fmt"
+	"io"
 	"os"
 	"os/exec"
 	"strings"
 	"syscall"
 	"testing"
+	"testing/iotest"
 	"time"
 
 	"pault.ag/go/debian/changelog"
@@ -237,7 +240,7 @@ func entriesMatch(got changelog.ChangelogEntries, want []ClEntry) error {
 
 var specC17Model = Register(&Spec[ClDoc]{
 	Prop: "C17", Name: "model",
-	Rule: "changelogs rendered from an entry-list model: 1..6 entries; source [a-z0-9][a-z0-9+.-]+, Policy-grammar version, 1..3 distributions, 0..3 key=value options, body of blank lines after the header, '  * item', deeper continuation, '  [ Name ]', blank lines, lines of blanks only, lines ending in blanks or a tab, and lines containing ' -- ', ';', '(' in the middle, blank lines before the trailer; maintainer 'Name <mail>'; timestamp from a generated instant and zone offset (-12:00..+14:00 incl. half/quarter hours and +00:01) rendered like date -R, or with the day's leading zero left out or replaced by a blank (Policy allows a one-digit day); 0..3 blank lines between entries, in 1/6 of the cases carrying blanks or a tab (dpkg reads ^\\s*$ as blank) or being '#', '/* */' or '$Keyword: $' lines, which the format says are ignored; final newline present or absent; trailing blank lines, in a quarter of the cases followed by the two-line '# Older entries have been removed ...' footer of a trimmed changelog. Oracle: changelog.Parse returns one entry per block in order with Source, Version (parts), Target (distributions joined by one blank), Arguments, Changelog == exact bytes between header and trailer line, ChangedBy, When equal as instant AND zone offset; ParseOne returns the first; parsing the same text again right after three failing parses (document cut inside a body, trailer without date) gives the same entries. Non-trivial: >= 2 entries, >= 2 options, or no final newline; distinct by text.",
+	Rule: "changelogs rendered from an entry-list model: 1..6 entries; source [a-z0-9][a-z0-9+.-]+, Policy-grammar version, 1..3 distributions, 0..3 key=value options, body of blank lines after the header, '  * item', deeper continuation, '  [ Name ]', blank lines, lines of blanks only, lines ending in blanks or a tab, and lines containing ' -- ', ';', '(' in the middle, blank lines before the trailer; maintainer 'Name <mail>'; timestamp from a generated instant and zone offset (-12:00..+14:00 incl. half/quarter hours and +00:01) rendered like date -R, or with the day's leading zero left out or replaced by a blank (Policy allows a one-digit day); 0..3 blank lines between entries, in 1/6 of the cases carrying blanks or a tab (dpkg reads ^\\s*$ as blank) or being '#', '/* */' or '$Keyword: $' lines, which the format says are ignored; final newline present or absent; trailing blank lines, in a quarter of the cases followed by the two-line '# Older entries have been removed ...' footer of a trimmed changelog. Oracle: changelog.Parse returns one entry per block in order with Source, Version (parts), Target (distributions joined by one blank), Arguments, Changelog == exact bytes between header and trailer line, ChangedBy, When equal as instant AND zone offset; ParseOne returns the first; parsing the same text again right after three failing parses (document cut inside a body, trailer without date) gives the same entries; when the source FAILS (an error other than io.EOF) right behind a complete entry that is not the last, Parse returns an error - not the entries so far. Non-trivial: >= 2 entries, >= 2 options, or no final newline; distinct by text.",
 	Check: func(d ClDoc, r *Recorder) error {
 		text := renderClDoc(d)
 		nt := len(d.Entries) >= 2 || !d.FinalNewline
@@ -287,9 +290,34 @@ var specC17Model = Register(&Spec[ClDoc]{
 				return errf("Parse over a %s: %v (changelog %q)", name, err, text)
 			}
 		}
+		// a source that fails (not: ends) after a complete entry - a truncated gzip stream, a dropped
+		// connection - has not delivered the changelog: the entries so far with a nil error would be
+		// a silently shortened list
+		if len(d.Entries) >= 2 {
+			broken := errors.New("verif: the source broke")
+			for p := 1; p < len(text); p++ {
+				if text[p-1] != '\n' {
+					continue
+				}
+				ls := strings.LastIndex(text[:p-1], "\n") + 1
+				if !strings.HasPrefix(text[ls:p], " -- ") {
+					continue
+				}
+				rest := strings.TrimLeft(text[p:], "\n")
+				if !strings.Contains(rest, "\n -- ") {
+					break // the last entry's trailer: everything has been delivered
+				}
+				for _, cut := range []int{p, len(text) - len(rest)} {
+					g, err := changelog.Parse(io.MultiReader(strings.NewReader(text[:cut]), iotest.ErrReader(broken)))
+					if err == nil {
+						return errf("the source failed with %q after %d of %d bytes (right behind a complete entry), Parse returned %d of %d entries and no error (changelog %q)", broken, cut, len(text), len(g), len(d.Entries), text)
+					}
+				}
+			}
+		}
 		// the file-based entry points see the same entries
 		if len(text)%3 == 0 {
-			if f, ferr := os.CreateTemp("", "c17-*.changelog"); ferr == nil {
+			if f, ferr := os.CreateTemp(workDir(), "c17-*.changelog"); ferr == nil {
 				f.WriteString(text)
 				f.Close()
 				fromFile, err := changelog.ParseFile(f.Name())
@@ -311,7 +339,7 @@ var specC17Model = Register(&Spec[ClDoc]{
 		}
 		// ... also when the path names a pipe rather than a regular file (size unknown in advance)
 		if len(text)%7 == 0 {
-			if dir, derr := os.MkdirTemp("", "c17fifo"); derr == nil {
+			if dir, derr := os.MkdirTemp(workDir(), "c17fifo"); derr == nil {
 				fifo := dir + "/changelog.fifo"
 				if syscall.Mkfifo(fifo, 0o600) == nil {
 					go func() {
@@ -430,7 +458,7 @@ func checkClPrefix(c ClPrefix, r *Recorder) error {
 
 var specC17Prefix = Register(&Spec[ClPrefix]{
 	Prop: "C17", Name: "prefix",
-	Rule: "EVERY prefix (cut point) of generated changelogs. With k = number of entries whose trailer line incl. newline lies inside the prefix: if only blank lines follow them the result must be exactly those k entries and no error; otherwise the result must be an error, or k+1 entries the last of which equals the model (possible only when just the final newline is missing) - never k entries without an error. Non-trivial: the cut lies inside an entry; distinct by prefix text.",
+	Rule:  "EVERY prefix (cut point) of generated changelogs. With k = number of entries whose trailer line incl. newline lies inside the prefix: if only blank lines follow them the result must be exactly those k entries and no error; otherwise the result must be an error, or k+1 entries the last of which equals the model (possible only when just the final newline is missing) - never k entries without an error. Non-trivial: the cut lies inside an entry; distinct by prefix text.",
 	Check: checkClPrefix,
 })
 
@@ -535,7 +563,7 @@ func TestC17_Malformed(t *testing.T) {
 
 var specC17Guard = Register(&Spec[ClDoc]{
 	Prop: "C17", Name: "dpkgguard",
-	Rule: "generated changelogs (C17/model generator, final newline present) are first shown to dpkg-parsechangelog --all: documents it rejects or warns about are dropped and counted as guard_rejected (generator soundness); the rest is decided by the C17/model oracle. The dpkg verdict is only a filter, so replay needs no dpkg.",
+	Rule:  "generated changelogs (C17/model generator, final newline present) are first shown to dpkg-parsechangelog --all: documents it rejects or warns about are dropped and counted as guard_rejected (generator soundness); the rest is decided by the C17/model oracle. The dpkg verdict is only a filter, so replay needs no dpkg.",
 	Check: func(d ClDoc, r *Recorder) error { return specC17Model.Check(d, r) },
 })
 
@@ -549,7 +577,7 @@ func TestC17_DpkgGuardExt(t *testing.T) {
 	rapidCollect(t, sink, func(t *rapid.T) ClDoc { d := genClDoc(t); d.FinalNewline = true; return d }, n)
 	specC17Guard.Enumerate(t, false, func(r *Recorder, yield func(ClDoc) bool) {
 		for _, d := range docs {
-			f, err := os.CreateTemp("", "c17-*.changelog")
+			f, err := os.CreateTemp(workDir(), "c17-*.changelog")
 			if err != nil {
 				return
 			}
